@@ -1,7 +1,7 @@
 SPECIFICATION Spec
 CONSTANTS
   Exts <- GenExts
-  Vals = {1, 2}
+  Vals = {0, 1}
   Margin = 1
   MaxSlices = 2
   Sparse = TRUE
